@@ -28,7 +28,7 @@ def tasks(tier, seed):
     return ([('m',) + t for t in corpus.method_tasks(tier)] +
             [('h',) + tuple(t) for t in corpus.header_tasks(tier)] +
             [('v',) + tuple(t) for t in values.value_tasks(tier)] +
-            [('misc',), ('subclasses',)] +
+            [('misc',), ('subclasses',)] + values.codepoint_tasks() +
             [('reuse', m.name, src) for m in spec_table.METHODS if m.args
              for src in ('constructed', 'decoded')] +
             [('reuse', 'header', 'constructed'),
@@ -571,6 +571,37 @@ def run(task, ctx):
                      sample=lambda: {'props': short(props, 160),
                                      'body_size': size, 'channel': ch})
             check_header(ctx, props, size, ch)
+    elif kind == 'codepoints':
+        p = lib.pamqp()
+        for first, strings, names in values.codepoint_blocks(task[1],
+                                                             task[2]):
+            ctx.case(('cp', first), True, sample=lambda: {
+                'code_points': '%#x..%#x' % (first,
+                                             first + values.CP_BLOCK - 1)})
+            for label, enc, arg, want in (
+                    ('field_array of strings', p.encode.field_array, strings,
+                     refcodec.enc_array(strings)),
+                    ('field_table with these names', p.encode.field_table,
+                     names, refcodec.enc_table(names))):
+                try:
+                    got = enc(arg)
+                    ctx.calls()
+                except Exception as exc:  # noqa
+                    got = repr(exc).encode()
+                ctx.valid()
+                if got != want:
+                    ctx.outcome('mismatch')
+                    ctx.violation('bytes|codepoints|%#x|%s' % (first, label),
+                                  '%s for code points %#x..%#x: bytes differ '
+                                  'from the reference (%s / %s)' % (
+                                      label, first,
+                                      first + values.CP_BLOCK - 1,
+                                      got.hex()[:80], want.hex()[:80]),
+                                  {'kind': 'codepoints', 'lo': task[1],
+                                   'hi': task[2]}, want.hex()[:300],
+                                  got.hex()[:300])
+                else:
+                    ctx.outcome('ok')
     elif kind == 'subclasses':
         check_subclass_values(ctx)
     elif kind == 'v':
@@ -602,5 +633,7 @@ def replay(case, ctx):
         run_reuse_header(ctx, case['source'], upto=case['upto'])
     elif case['kind'] == 'subclasses':
         check_subclass_values(ctx)
+    elif case['kind'] == 'codepoints':
+        run(('codepoints', case['lo'], case['hi']), ctx)
     else:
         check_misc(ctx)
